@@ -731,7 +731,7 @@ func checkMain(args []string) int {
 			"solver_unknown":                unknown,
 			"queries":                       queries,
 			"solver_time_s":                 float64(solverMs) / 1000,
-			"solver":                        "z3 4.8.12 (z3 -in, push/pop)",
+			"solver":                        "z3 5.1.0 (z3-new -in, one process per worker, push/pop mirroring the path condition)",
 			"jobs":                          len(jobs),
 			"harnesses":                     hn,
 			"infeasible_paths":              infeasible,
